@@ -8,10 +8,13 @@ import (
 	"context"
 	"io"
 	"log/slog"
+	"net"
 	"sort"
 	"time"
 
+	"github.com/sheerbytes/sheerbytes/internal/quictransport"
 	"github.com/sheerbytes/sheerbytes/internal/transfer"
+	"github.com/sheerbytes/sheerbytes/internal/transferquic"
 	"github.com/sheerbytes/sheerbytes/pkg/protocol"
 )
 
@@ -79,6 +82,27 @@ const (
 
 func VerifAuthenticate(ctx context.Context, conn transfer.Conn, joinCode string, role byte) error {
 	return authenticateTransport(ctx, conn, joinCode, role)
+}
+
+// VerifAcceptExtraConns runs the receiver's real acceptExtraConns loop on a listener transport.
+func VerifAcceptExtraConns(ctx context.Context, joinCode string, t *transferquic.QUICTransport, extra int) ([]transfer.Conn, error) {
+	r := &snapshotReceiver{joinCode: joinCode, logger: slog.New(slog.NewTextHandler(io.Discard, nil))}
+	return r.acceptExtraConns(ctx, t, extra)
+}
+
+// VerifDialExtraConns runs the sender's real dialExtraConns loop against one remote address.
+func VerifDialExtraConns(ctx context.Context, joinCode string, remote *net.UDPAddr, extra int) ([]transfer.Conn, func(), error) {
+	s := &SnapshotSender{joinCode: joinCode, logger: slog.New(slog.NewTextHandler(io.Discard, nil))}
+	ecs, err := s.dialExtraConns(ctx, "peer", remote, quictransport.ClientConfig(), quictransport.DefaultClientQUICConfig(), extra)
+	conns := make([]transfer.Conn, 0, len(ecs))
+	for _, ec := range ecs {
+		conns = append(conns, ec.conn)
+	}
+	return conns, func() {
+		for _, ec := range ecs {
+			ec.close()
+		}
+	}, err
 }
 
 // ---- path resolver / URL helpers (C13, C16) ------------------------------------
